@@ -69,11 +69,33 @@ static void huge_stride_probe(Rng& g) {
 }
 #endif
 
+#if C15_D <= 2
+// the same geometry transformed several times in a row, in place and out of place, through the three-argument forms: every call is the direct DFT of its own input,
+// whatever was transformed before (FFTW plans made for in-place use and for distinct arrays are not interchangeable for sizes like 30, 64, 100, 128)
+static void repeat_geometry_probe(Rng& g) {
+	static L const SZ[] = {30, 64, 100, 128}; L const n0 = SZ[g.below(4)]; std::vector<L> n{n0}; if(D == 2) n.push_back(g.in(2, 6)); L N = 1; for(auto q : n) N *= q;
+	std::array<bool, std::size_t(D)> which{}; which[0] = true; if(D == 2) which[1] = g.chance(1, 2); int const sign = g.chance(1, 2) ? -1 : +1;
+	describe("repeat-geometry probe n=" + join(n, "x") + " sign=" + std::to_string(sign)); sig_mix("repeat-geometry"); sig_mix(std::uint64_t(n0)); op("repeat-geometry"); count("repeat-geometry-probes"); std::string const K = "C15:repeat-geometry:";
+	multi::array<C, D> a(make_extensions<D>(n)), b(make_extensions<D>(n)); double const tol = 1e-9 * double(N) * 8;
+	for(int step = 0; step < 4; ++step) { bool const inplace = g.chance(1, 2); std::vector<C> x(static_cast<std::size_t>(N)); for(auto& v : x) v = C(double(g.below(7)) - 3, double(g.below(5)) - 2); auto const y = ref_dft(x, n, which, sign);
+		for(L k = 0; k < N; ++k) { a.data_elements()[k] = x[std::size_t(k)]; b.data_elements()[k] = OUTFILL; }
+		op(inplace ? "repeat-geometry:in-place(3-argument form)" : "repeat-geometry:out-of-place");
+		if(inplace) { if(sign == -1) fftw::dft_forward(which, a, a); else fftw::dft_backward(which, a, a); } else { if(sign == -1) fftw::dft_forward(which, a, b); else fftw::dft_backward(which, a, b); }
+		auto const& res = inplace ? a : b; double err = 0; for(L k = 0; k < N; ++k) err = std::max(err, std::abs(res.data_elements()[k] - y[std::size_t(k)]));
+		if(err > tol) { violation(K + (inplace ? "in-place:wrong" : "out-of-place:wrong"), "call " + std::to_string(step) + " of a sequence over one geometry differs from the direct DFT by " + std::to_string(err)); break; }
+		if(!inplace) for(L k = 0; k < N; ++k) if(!(a.data_elements()[k] == x[std::size_t(k)])) { violation(K + "input-modified", "an out-of-place transform in a sequence over one geometry modified its distinct input"); step = 4; break; } }
+	nontrivial(true);
+}
+#endif
+
 int main(int argc, char** argv) {
 	return main_loop(argc, argv, [&](Case& c) {
 		static bool init = false; if(!init) { init = true; auto& a = st().args; for(std::size_t i = 0; i + 1 < a.size(); ++i) if(a[i] == "--maxext") MAXEXT = std::atoi(a[i + 1].c_str()); }
 #if C15_D == 2
 		if(c.k % 40 == 11) { huge_stride_probe(c.rng); return; }
+#endif
+#if C15_D <= 2
+		if(c.k % 40 == 23) { repeat_geometry_probe(c.rng); return; }
 #endif
 		Rng& g = c.rng; std::vector<L> n; for(int d = 0; d < D; ++d) n.push_back(g.in(1, d == D - 1 ? MAXEXT + 1 : MAXEXT)); if(g.chance(1, 5)) n[std::size_t(g.below(D))] = 1;
 		std::array<bool, std::size_t(D)> which{}; std::string ws; for(int d = 0; d < D; ++d) { which[std::size_t(d)] = g.chance(1, 2); ws += which[std::size_t(d)] ? "T" : "F"; }
